@@ -36,3 +36,31 @@ package redisemu
 //@ modifies *
 //@ assertbefore "n, err := cc.cxn.Read(buffer)" [C01] fresh.buffer: madehere(buffer) && len(buffer) > 0
 //@ assertbefore "cc.inbound = cc.inbound[length:]" [C01] consume.exact: 0 < length && length <= len(cc.inbound)
+
+// C01: the reply of a command is written before the connection goes back to
+// reading the next one (replies leave in command order), and each command
+// writes exactly once. The goroutine's own order of actions is checked
+// (goinline); other goroutines are not modelled.
+//@ ghost gReplyWrites int
+
+//@ func net.Conn.Write
+//@ trusted writes the bytes to the peer
+//@ modifies ghost.gReplyWrites
+//@ effect gReplyWrites = gReplyWrites + 1
+//@ ensures 0 <= n && n <= len(b)
+
+//@ func clientState.dispatch
+//@ trusted runs the command (the dispatcher and the handlers have their own contracts); does not touch the connection
+//@ requires cs != nil
+//@ modifies heap
+
+//@ func clientCxn.onDispatchCommand
+//@ prop C01
+//@ safetyprop none
+//@ mode int
+//@ goinline
+//@ requires cc != nil && cc.cs != nil
+//@ requires gReplyWrites == 0
+//@ modifies *
+//@ assertbefore "cc.queueStateChange(csWaitForCommand, nil)" [C01] reply.before.read: gReplyWrites == 1
+//@ ensures [C01] one.reply: gReplyWrites == 1
